@@ -75,6 +75,9 @@ def install_pool_peer():
 def build_pool(master_seed, names=None, versions=('1.0', '1.1'), build=True, corpus=False):
     entries = {}
     install_pool_peer()
+    # the shadow family's <bag> pairs a local declaration with a wildcard on purpose: the library says so at build time
+    import warnings
+    warnings.filterwarnings('ignore', message='Maybe a not equivalent type table')
     for name in names or FAMILIES:
         fam = FAMILIES[name]
         for version in versions:
